@@ -719,7 +719,11 @@ class PackageSpecs(Part):
             # how it is opened
             "how": st.sampled_from(["loader_spec", "loader_spec",
                                     "file_package", "file_package_sp",
-                                    "loader_path", "file_path"]),
+                                    "loader_path", "file_path",
+                                    # a file name relative to the working
+                                    # directory, which is another one by
+                                    # the time the template is used
+                                    "file_relative"]),
             # is there a part.pt next to it / in the other places
             "sibling": st.booleans(),
             "in_other": st.booleans(),
@@ -796,6 +800,21 @@ class PackageSpecs(Part):
         elif how == "loader_path":
             make = lambda: TemplateLoader([other], **kw).load(
                 os.path.join(home, "main.pt"))
+        elif how == "file_relative":
+            def make():
+                cwd = os.getcwd()
+                os.chdir(os.path.dirname(home) if rel else self.tmp)
+                try:
+                    t = PageTemplateFile(
+                        os.path.join(os.path.basename(home.rstrip("/")),
+                                     "main.pt"),
+                        search_path=[other], **kw)
+                    os.chdir(other)
+                    t.cook_check()
+                    t.render()
+                    return t
+                finally:
+                    os.chdir(cwd)
         else:
             make = lambda: PageTemplateFile(
                 os.path.join(home, "main.pt"), search_path=[other], **kw)
